@@ -67,7 +67,7 @@ OPS = [
     (r"\b0\b", "1"), (r"\b1\b", "0"), (r"\b2\b", "3"), (r"\b8\b", "7"), (r"\b7\b", "8"),
     (r"\.take\b", ".drop"), (r"\.drop\b", ".take"), (r"\bmin\b", "max"), (r"\bmax\b", "min"),
     (r"\.isEmpty\b", ".isEmpty.not"), (r" \+\+ ", " ++ [] ++ List.reverse <| "), (r"\.reverse\b", ""),
-    (r"\bsome\b", "id <| some"), (r">", "≥"), (r"≥", ">"), (r"\.ok\b", ".ok <| id"), (r"(?<=[a-z)\]] )\+(?= [a-zA-Z(])", "-"),
+    (r"\bsome\b", "id <| some"), (r"(?<![=\-|<])>(?![=>])", "≥"), (r"≥", ">"), (r"\.ok\b", ".ok <| id"), (r"(?<=[a-z)\]] )\+(?= [a-zA-Z(])", "-"),
     (r"(?<=[a-z)\]] )-(?= [a-zA-Z(0-9])", "+"), (r"\* ", "+ "), (r" % ", " / "), (r"\.panic\b", ".err .invalidModel |> fun (r : Res _) => (fun _ => r)"),
     (r"\.ub\b", ".panic"),
 ]
